@@ -1,4 +1,5 @@
 import Rcgen.Proofs.ImportDecode
+import Rcgen.Proofs.ChainImport
 import Rcgen.Theorems.C02
 /-
   C17 — importing a CA certificate recovers the fields it claims to recover.
@@ -40,6 +41,22 @@ theorem import_of_generated (crypto : Bool) (i : CertInputs)
     p'.notBefore.epochSeconds = i.p.notBefore.epochSeconds ∧
     p'.notAfter.epochSeconds = i.p.notAfter.epochSeconds :=
   ImportDecode.import_of_generated crypto i hc p' h hpl hip hother hnc
+
+/-- re-issuing through an import keeps the chain: a certificate issued from the *imported*
+    parameters of a CA names that CA as its issuer — its issuer field decodes to exactly the
+    subject the CA certificate decodes to (C03's name clause, through `from_ca_cert_der`) -/
+theorem issued_from_imported_names_issuer (crypto : Bool) (ca : CertInputs)
+    (hc : ∀ e ∈ ca.p.customExts, e.oid ∉ X509.knownOids) (p' : CertParams)
+    (h : importCa crypto (CertDecode.modelTbs ca) = .ok p')
+    (hpl : ∀ n, ca.p.isCa = .ca (some n) → n ≤ 255)
+    (hip : ∀ o, SanType.ip o ∈ ca.p.sans → o.length = 4 ∨ o.length = 16)
+    (hother : ∀ oid v, SanType.otherName oid v ∈ ca.p.sans → utf8Valid v = true)
+    (hnc : ∀ nc, ca.p.nameConstraints = some nc →
+      nc.permitted.all subtreeSupported = true ∧ nc.excluded.all subtreeSupported = true)
+    (leaf : CertParams) (leafKey caKey : PubKey) (H : Hashes) :
+    (CertDecode.modelTbs ⟨H, leaf, leafKey, Validate.issuerOf ⟨p', caKey⟩⟩).issuer =
+      (CertDecode.modelTbs ca).subject :=
+  ChainImport.issued_from_imported_names_issuer crypto ca hc p' h hpl hip hother hnc leaf leafKey caKey H
 
 /-- `get_extension_unique` never errs on a generated certificate: each of rcgen's own
     extensions occurs at most once (C05), so the lookup returns it, or nothing -/
